@@ -211,6 +211,8 @@ func (fg *FG) call0(st *State, cc *ssa.CallCommon, in ssa.Instruction, resultOf 
 	}
 	if c.Assumed {
 		fg.usedAssumed[c.Key] = true
+	} else if c.Kind == "iface" {
+		fg.usedAssumed["iface:"+c.Key] = true
 	}
 	fg.g.noteCallee(fg, c)
 	names := fg.paramNames(c, callee, sig, invoke)
